@@ -77,7 +77,7 @@ theorem computeLoopPL_eq (hsub : ∀ a b : α, a - b = a + -b) (L : Leaves α) (
       let c := plC P.beta ts
       let od := loopPLInner ts c (plSumQ ts c) (plA ts) it.2 it.1
       (od.1 * (it.1.sig2 / c),
-       od.2 * (it.1.sig2 / (c * c)) * gammaVal P.gamma c ts.length it.1.mu it.1.sig2 it.1.rank))
+       od.2 * (it.1.sig2 / (c * c)) * gammaVal P.gamma c ts.length it.1.mu it.1.sig2 it.1.players it.1.rank))
   unfold computeLoopPL computeLoopPLOn computeLoopPLWith
   refine h.trans ?_
   apply List.map_congr_left
